@@ -66,14 +66,66 @@ def spaces(tier):
         si, p, t = index[i]
         return {'knots': [LEVELS[k] for k in sets[si]], 'pattern': p,
                 't_min': TMINS[t]}
+    dumped = [(si, p) for si in range(0, len(sets), 5) for p in PATTERNS]
+
+    def decode_dump(i):
+        if i == len(dumped):
+            return {'knots': [0.0, 1.0], 'pattern': 'rising',
+                    't_min': 0.5, 'many_knots': True, 'dump': True}
+        si, p = dumped[i]
+        return {'knots': [LEVELS[k] for k in sets[si]], 'pattern': p,
+                't_min': 7.442, 'dump': True}
     return [Space('SplineTransmissivity/knot subsets x patterns x T_min',
-                  len(index), decode, 'each case evaluates all levels')]
+                  len(index), decode, 'each case evaluates all levels'),
+            Space('main(plot transmissivity --dump)/every 5th knot subset '
+                  'x patterns + one 48-knot set', len(dumped) + 1,
+                  decode_dump)]
+
+
+def dump_violations(knots, K, t_min):
+    """`spowtd plot transmissivity PARS MIN MAX -n N --dump F`: every row
+    (level in cm, value) must pair the level with the closed-form T"""
+    from mc.lib import dumps
+    pars = {'specific_yield': {'type': 'spline',
+                               'zeta_knots_mm': [0.0, 1.0, 2.0, 3.0],
+                               'sy_knots': [0.1, 0.2, 0.3, 0.4]},
+            'transmissivity': {'type': 'spline',
+                               'zeta_knots_mm': list(knots),
+                               'K_knots_km_d': list(K),
+                               'minimum_transmissivity_m2_d': t_min}}
+    lo_cm, hi_cm = (knots[0] - 30.0) / 10.0, knots[-1] / 10.0
+    status, exc, rows, _ = dumps.run_dump('transmissivity', pars, lo_cm,
+                                          hi_cm, 7)
+    if status != 0:
+        return [('dump-failed', 'plot transmissivity --dump failed for '
+                 'knots %r: %r' % (knots, exc))]
+    out = []
+    want_levels = list(np.linspace(lo_cm, hi_cm, 7))
+    if len(rows) != 7 or any(not abs(a - b) <= 1e-9 * (abs(b) + 1)
+                             for (a, _), b in zip(rows, want_levels)):
+        out.append(('dump-levels', 'dumped levels %r, asked for %r'
+                    % ([r[0] for r in rows], want_levels)))
+    else:
+        for level_cm, value in rows:
+            want = hydraulics.spline_T(level_cm * 10.0, knots, K, t_min)
+            if not abs(value - want) <= 1e-7 * abs(want):
+                out.append(('dump-value',
+                            'dump pairs level %r cm with T = %r, closed '
+                            'form gives %r' % (level_cm, value, want)))
+                break
+    return out
 
 
 def run_case(case):
     knots = case['knots']
     n = len(knots)
-    K = [PATTERNS[case['pattern']](i, n) for i in range(n)]
+    if case.get('many_knots'):
+        # 48 knots with steep segments: the integrator works hard here
+        knots = [-2400.0 + 50.0 * i for i in range(48)]
+        n = 48
+        K = [10.0 ** (-6 + 10 * (i % 2) + 0.01 * i) for i in range(48)]
+    else:
+        K = [PATTERNS[case['pattern']](i, n) for i in range(n)]
     t_min = case['t_min']
     try:
         # a different function built first: state kept between instances
@@ -96,7 +148,12 @@ def run_case(case):
     try:
         scalars = [float(T(z)) for z in levels]
         as_list = [float(v) for v in T(list(levels))]
-        as_array = [float(v) for v in T(np.array(levels))]
+        arg = np.array(levels)
+        as_array = [float(v) for v in T(arg)]
+        if list(arg) != list(levels):
+            viol.append(('caller-array-overwritten',
+                         'after T(array) the caller\'s levels read %r, they '
+                         'were %r' % (list(arg)[:4], levels[:4])))
     except Exception as exc:  # pylint: disable=broad-except
         return Result(viol=[('crash:' + exc_site(exc), repr(exc)[:200])],
                       nontrivial=True, outcome='exc')
@@ -119,6 +176,8 @@ def run_case(case):
         if not b >= a - 1e-7 * abs(a):
             viol.append(('decreasing',
                          'T(%r) = %r > T(%r) = %r' % (z0, a, z1, b)))
+    if case.get('dump'):
+        viol += dump_violations(knots, K, t_min)
     seen = set()
     viol = [v for v in viol if not (v[0] in seen or seen.add(v[0]))]
     return Result(viol=viol, nontrivial=n >= 3,
